@@ -402,10 +402,10 @@ func init() {
 			js = append(js, sym.Job{Pkg: "regulator", Harness: "Harness_Reg_Mix", Args: []int{n, l1, l2, sweeps}})
 		}
 		if tier == "thorough" {
-			for n := 2; n <= 12; n++ {
+			for n := 2; n <= 10; n++ {
 				for _, l1 := range []int{1, 2, 5} {
 					for _, l2 := range []int{1, 3} {
-						mix(n, l1, l2, 3)
+						mix(n, l1, l2, 2)
 					}
 				}
 			}
@@ -416,13 +416,13 @@ func init() {
 			}
 		}
 		if tier == "thorough" {
-			for n := 0; n <= 24; n++ {
+			for n := 0; n <= 18; n++ {
 				add(n, 0, 1, 3)
 			}
-			for n := 2; n <= 16; n++ {
+			for n := 2; n <= 12; n++ {
 				add(n, 2, 2, 3)
 			}
-			for _, n := range []int{6, 9, 13} {
+			for _, n := range []int{6, 9} {
 				add(n, 3, 3, 0)
 			}
 		} else {
@@ -437,9 +437,9 @@ func init() {
 	}
 	regBounds := func(tier string) []string {
 		if tier == "thorough" {
-			return []string{"settings: every (max, min) with 2 <= min <= max <= 10 (symbolic)", "histories from NewRegulator: N <= 24 registrants in one batch before the start, start, 0/2/3 late registrants, up to 3 table syncs with 0..2 eliminations on any live table, optional registration deadline, then 3 sweeps without eliminations in every rotation order followed by one sweep that must be idle", "operations before the start: two registration batches (0..8, then 0 or 3), releases with nobody to hand back, a sync naming an unknown table; then the start and one sweep", "registrations interleaved with a sync: n registrants (quick 4,6,8; thorough 2..12), start, l1 more (quick 2,5; thorough 1,2,5), one sync of any table with 0..4 eliminated, l2 more (quick 3; thorough 1,3), sweeps", "after every sync: a sync (1 eliminated) naming an unknown table and naming every table broken earlier must be refused and change nothing", "callbacks never fail; map order: insertion"}
+			return []string{"settings: every (max, min) with 2 <= min <= max <= 10 (symbolic)", "histories from NewRegulator: N <= 18 registrants in one batch before the start (N <= 12 with 2 late registrants and 2 syncs; N = 6, 9 with 3 late registrants and 3 syncs), start, 0/2/3 late registrants, up to 3 table syncs with 0..2 eliminations on any live table, optional registration deadline, then 3 sweeps without eliminations in every rotation order followed by one sweep that must be idle", "operations before the start: two registration batches (0..8, then 0 or 3), releases with nobody to hand back, a sync naming an unknown table; then the start and one sweep", "registrations interleaved with a sync: n registrants (quick 4,6,8; thorough 2..10), start, l1 more (quick 2,5; thorough 1,2,5), one sync of any table with 0..4 eliminated, l2 more (quick 3; thorough 1,3), sweeps", "after every sync: a sync (1 eliminated) naming an unknown table and naming every table broken earlier must be refused and change nothing", "callbacks never fail; map order: insertion"}
 		}
-		return []string{"settings: every (max, min) with 2 <= min <= max <= 10 (symbolic)", "histories from NewRegulator: N <= 13 registrants in one batch before the start, start, 0/2 late registrants, up to 2 table syncs with 0..2 eliminations on any live table, optional registration deadline, then 2 sweeps without eliminations in every rotation order followed by one sweep that must be idle", "operations before the start: two registration batches (0..5, then 0 or 3), releases with nobody to hand back, a sync naming an unknown table; then the start and one sweep", "registrations interleaved with a sync: n registrants (quick 4,6,8; thorough 2..12), start, l1 more (quick 2,5; thorough 1,2,5), one sync of any table with 0..4 eliminated, l2 more (quick 3; thorough 1,3), sweeps", "after every sync: a sync (1 eliminated) naming an unknown table and naming every table broken earlier must be refused and change nothing", "callbacks never fail; map order: insertion"}
+		return []string{"settings: every (max, min) with 2 <= min <= max <= 10 (symbolic)", "histories from NewRegulator: N <= 13 registrants in one batch before the start, start, 0/2 late registrants, up to 2 table syncs with 0..2 eliminations on any live table, optional registration deadline, then 2 sweeps without eliminations in every rotation order followed by one sweep that must be idle", "operations before the start: two registration batches (0..5, then 0 or 3), releases with nobody to hand back, a sync naming an unknown table; then the start and one sweep", "registrations interleaved with a sync: n registrants (quick 4,6,8; thorough 2..10), start, l1 more (quick 2,5; thorough 1,2,5), one sync of any table with 0..4 eliminated, l2 more (quick 3; thorough 1,3), sweeps", "after every sync: a sync (1 eliminated) naming an unknown table and naming every table broken earlier must be refused and change nothing", "callbacks never fail; map order: insertion"}
 	}
 	regOutside := []string{"max players per table above 10; more registrants / longer histories than stated; more than two registration batches before the start; releases of players the regulator did not ask for", "failing callbacks; concurrent calls (the regulator's mutex is not the subject)", "Go map iteration orders other than insertion order (the regulator ranges over its table map)", "C20 is a bounded claim: states needing more sweeps than K are counterexamples only within the explored histories"}
 	regAssume := append([]string{"float64 arithmetic of the water-level formulas lowered to exact integer arithmetic under range obligations |x| < 2^26 (engine/sym/float.go); divisions by small symbolic divisors are case-split over constants", "tables follow instructions: released / received / broken exactly as SyncState says (the protocol of the repository's own tests)"}, commonAssumptions...)
